@@ -55,12 +55,6 @@ def showCall : Call → String
   | .sync s ok => s!"s{s}:{if ok then "ok" else "err"}"
   | .delete s ok => s!"d{s}:{if ok then "ok" else "err"}"
 
-/-- a mailbox message: an event of the model, or `Shutdown` -/
-inductive Msg where
-  | ev (e : Ev)
-  | shutdown
-  deriving Repr
-
 structure Inc where
   faults : List (Nat × Outcome)
   dead : Option Nat
@@ -91,7 +85,7 @@ def msgP : P (List Msg) := do
   | "f" => do let id ← nat; let ts ← nat; let d ← bytesTok; pure [.ev (Ev.forget ⟨id, d, ts⟩)]
   | "t" => pure [.ev Ev.tick]
   | "x" => do let T ← nat; pure [.ev (Ev.truncate T)]
-  | "xl" => pure []
+  | "xl" => pure [.noop]
   | "s" => pure [.shutdown]
   | _ => failure
 
@@ -158,51 +152,17 @@ def idOf (ws : List Write) (e : Entry) : String :=
   | some w => toString w.id
   | none => "?"
 
-/-- where `run_always_mode` is when it takes a message: at the top of its loop (`recv().await`),
-    inside the group-commit wait (`timeout(.., async { while .. recv().await .. })`), or in the
-    drain loop (`try_recv`).  A `Shutdown` handled at the top or in the drain loop ends the actor;
-    handled inside the wait it only leaves the wait (the `return` is the async block's) and the actor
-    goes on.  This scheduling glue is NOT part of the verified model: whatever it decides, the
-    result is `Actor.step` applied to some event list, and the theorems cover every event list. -/
-inductive Phase where
-  | top | block | drain
-  deriving DecidableEq, Repr
-
-structure Sched where
-  a : Actor
-  phase : Phase := .top
-  alive : Bool := true
-  /-- `write_durable` callers whose message the actor never handled: they get an I/O error -/
-  dropped : List Nat := []
-
-def idsOfMsg : Msg → List Nat
-  | .ev (.write w) => [w.id]
-  | _ => []
-
-def schedAlways (wl : Workload) (φ : Nat → Outcome) (s : Sched) (m : Msg) : Sched :=
-  if !s.alive then { s with dropped := s.dropped ++ idsOfMsg m } else
-  match m with
-  | .shutdown =>
-    let a1 := Actor.flush wl.fix φ s.a
-    (match s.phase with
-    | .block => { s with a := a1, phase := .drain }
-    | _ => { s with a := a1, alive := false })
-  | .ev e =>
-    let a1 := Actor.step wl.fix wl.tick φ wl.fmt crc s.a e
-    if wl.maxEntries ≤ a1.esync then { s with a := Actor.flush wl.fix φ a1, phase := .top }
-    else
-      (match s.phase with
-      | .top => { s with a := a1, phase := if a1.esync = 0 then .drain else .block }
-      | ph => { s with a := a1, phase := ph })
-
-/-- the mailbox ran empty: the wait times out / the drain loop breaks, whatever is pending is flushed -/
-def endBurstAlways (wl : Workload) (φ : Nat → Outcome) (s : Sched) : Sched :=
-  if s.alive then { s with a := Actor.flush wl.fix φ s.a, phase := .top } else s
+/-- the schedule of `run_always_mode` is the MODEL's `Sched.step` / `Sched.endBurst`
+    (Model/WalActor.lean; theorem `durable_survives_bursts`) for the current rotator; the two
+    historical variants of the rotator / tick (`fix = false`, `tickSyncs = true`) keep the plain
+    burst schedule `Actor.runGroup` (they never see `Shutdown` / `noop` messages) -/
+def idsOfMsg : Msg → List Nat := Msg.ids
 
 def schedNow (pol : Policy) (wl : Workload) (φ : Nat → Outcome) (s : Sched) (m : Msg) : Sched :=
   if !s.alive then { s with dropped := s.dropped ++ idsOfMsg m } else
   match m with
   | .shutdown => { s with a := if pol = .everySecond then Actor.tickEverySec φ s.a else s.a, alive := false }
+  | .noop => s
   | .ev e => { s with a := Actor.stepP pol φ wl.fmt crc s.a e }
 
 def runInc (wl : Workload) (st : Actor × List Nat) (inc : Inc) : Actor × List Nat :=
@@ -210,7 +170,10 @@ def runInc (wl : Workload) (st : Actor × List Nat) (inc : Inc) : Actor × List 
   let (a, dropped0) := st
   match wl.policy with
   | .always =>
-    let s1 := inc.groups.foldl (fun s g => endBurstAlways wl φ (g.foldl (schedAlways wl φ) s)) ({ a := a } : Sched)
+    let evsOf := fun (g : List Msg) => g.filterMap (fun m => match m with | .ev e => some e | _ => none)
+    let s1 : Sched :=
+      if wl.fix && !wl.tick then Sched.runBursts wl.maxEntries φ wl.fmt crc { a := a } inc.groups
+      else { a := inc.groups.foldl (fun a g => Actor.runGroup wl.fix wl.tick φ wl.fmt crc wl.maxEntries a (evsOf g)) a }
     let a1 := s1.a
     (match inc.ending with
     | "c" => Actor.step wl.fix wl.tick φ wl.fmt crc a1 (.reopen true wl.reuse)
